@@ -410,7 +410,7 @@ mod validate {
     }
 
     /// structural clauses (before or after monomorphisation)
-    pub fn structural(p: &AirProgram, tp_names: &[String], generic_ids: &[u32], declared_structs: &[String], out: &mut Vec<Finding>) {
+    pub fn structural(p: &AirProgram, tp_names: &[String], generic_ids: &[u32], declared_structs: &[String], toplevel_nested: &[String], declared_before_opt: &[String], out: &mut Vec<Finding>) {
         for f in &p.functions {
             let mut add = |kind: &str, detail: String| {
                 out.push(Finding { fn_id: f.id.0, fn_name: f.name.clone(), kind: kind.into(), detail })
@@ -495,9 +495,15 @@ mod validate {
                     add(
                         if n.starts_with("__mono_") {
                             "struct-missing-init-renamed"
+                        } else if !declared_structs.contains(n) && declared_before_opt.contains(n) {
+                            // declared in the program type inference saw, gone after the optimizer
+                            "struct-missing-init:declaration-removed-by-optimizer"
                         } else if !declared_structs.contains(n) {
                             // the source declares no such struct anywhere: type inference let it through
                             "struct-missing-init-undeclared"
+                        } else if toplevel_nested.contains(n) {
+                            // declared inside a top-level block / if / loop, outside every function
+                            "struct-missing-init:declared-in-toplevel-statement"
                         } else {
                             "struct-missing-init"
                         },
@@ -579,7 +585,7 @@ mod validate {
     }
 
     /// clauses that hold only after monomorphisation; `pre` = program before monomorphize
-    pub fn after_mono(pre: &AirProgram, post: &AirProgram, tp_names: &[String], out: &mut Vec<Finding>) {
+    pub fn after_mono(pre: &AirProgram, post: &AirProgram, tp_names: &[String], uninferable: &[String], out: &mut Vec<Finding>) {
         let generic_names: Vec<&str> = pre.functions.iter().filter(|f| !f.type_params.is_empty()).map(|f| f.name.as_str()).collect();
         let mut roots: Vec<String> = Vec::new();
         for f in &post.functions {
@@ -610,7 +616,7 @@ mod validate {
                     let g = pre.functions.iter().rev().find(|g| &g.name == callee && !g.type_params.is_empty());
                     let is_closure = g.is_some_and(|g| g.params.first().is_some_and(|p| p.name == "__env"));
                     let no_param_in_sig = g.is_some_and(|g| !g.params.iter().any(|p| ty_has_param(&p.ty)));
-                    let builtin_tp = tp_names.iter().any(|n| {
+                    let builtin_tp = !uninferable.contains(callee) && tp_names.iter().any(|n| {
                         matches!(n.to_lowercase().as_str(), "int" | "float" | "bool" | "string" | "i8" | "i16" | "i32" | "i64" | "u8" | "u16" | "u32" | "u64" | "f32" | "f64" | "null" | "void" | "array" | "vec")
                     });
                     // an argument that is the result of another (generic) call: its type is unresolved in the caller
@@ -630,6 +636,9 @@ mod validate {
                             "generic-callee-in-instance"
                         } else if is_closure {
                             "generic-closure-callee-not-instantiated"
+                        } else if uninferable.contains(callee) {
+                            // the source declares a type parameter that occurs in no parameter type
+                            "generic-callee-not-instantiated:type-param-not-in-any-parameter"
                         } else if no_param_in_sig && builtin_tp {
                             "generic-callee-not-instantiated:type-param-named-like-builtin"
                         } else if arg_is_generic_result {
@@ -1519,6 +1528,27 @@ impl<'a> Gen<'a> {
             b.push_str(&format!("  return first{}(kept)\n}}\n", k));
             s.push_str(&b);
         }
+        if self.rng.chance(1, 8) {
+            // a struct declared inside a top-level statement, used by a later function
+            self.st.hit("struct-in-toplevel-statement");
+            let k = self.fresh;
+            self.fresh += 1;
+            s.push_str(&format!("if true {{\n  struct Top{} {{ x: int }}\n}}\nfn usetop{}() -> int {{\n  let t = Top{} {{ x: 1 }}\n  return t.x\n}}\n", k, k, k));
+        }
+        if self.rng.chance(1, 8) {
+            // a struct declared after a return (dead code for the optimizer, still a declaration)
+            self.st.hit("struct-declared-after-return");
+            let k = self.fresh;
+            self.fresh += 1;
+            s.push_str(&format!("fn deadd{}() -> int {{\n  return 1\n  struct Late{} {{ x: int }}\n}}\nfn uselate{}() -> int {{\n  let t = Late{} {{ x: 2 }}\n  return t.x\n}}\n", k, k, k, k));
+        }
+        if self.rng.chance(1, 12) {
+            // a type parameter that occurs in no parameter type cannot be inferred at a call
+            self.st.hit("type-param-not-in-parameters");
+            let k = self.fresh;
+            self.fresh += 1;
+            s.push_str(&format!("fn make{}<T>() -> int {{\n  return 1\n}}\nfn usemake{}() -> int {{\n  return make{}()\n}}\n", k, k, k));
+        }
         if self.rng.chance(1, 4) {
             // a name shadowed inside a block / loop and used again afterwards (also shadowing a top-level let)
             self.st.hit("shadowing-in-inner-scope");
@@ -1790,9 +1820,39 @@ fn run_case(case: &str, code: &str, modes: &[&str], st: &mut Stats) {
         collect_tp_names(&tp.stmts, &mut tp_names);
         let mut declared_structs: Vec<String> = Vec::new();
         structs_in_stmts(&tp.stmts, &mut declared_structs);
+        let mut declared_before_opt: Vec<String> = Vec::new();
+        structs_in_stmts(&typed.stmts, &mut declared_before_opt);
+        let mut toplevel_nested: Vec<String> = Vec::new();
+        for st0 in &tp.stmts {
+            if !matches!(st0.kind, TypedStmtKind::Function(_) | TypedStmtKind::StructDecl { .. }) {
+                structs_in_stmts(std::slice::from_ref(st0), &mut toplevel_nested);
+            }
+        }
+        // type parameters of generic functions that occur in none of their parameter types (source level)
+        let mut uninferable: Vec<String> = Vec::new();
+        fn mentions_name(t: &InferType, n: &str) -> bool {
+            match t {
+                InferType::Struct(x) => x == n,
+                InferType::Array(i) | InferType::Vec(i) => mentions_name(i, n),
+                InferType::Function { params, ret } => params.iter().any(|p| mentions_name(p, n)) || mentions_name(ret, n),
+                InferType::Tuple(v) => v.iter().any(|p| mentions_name(p, n)),
+                _ => false,
+            }
+        }
+        fn collect_uninferable(stmts: &[TypedStmt], out: &mut Vec<String>) {
+            for s in stmts {
+                if let TypedStmtKind::Function(f) = &s.kind {
+                    if f.type_params.iter().any(|tp| !f.params.iter().any(|p| mentions_name(&p.ty, tp))) {
+                        out.push(f.name.clone());
+                    }
+                    collect_uninferable(&f.body, out);
+                }
+            }
+        }
+        collect_uninferable(&tp.stmts, &mut uninferable);
         let mut generic_ids: Vec<u32> = pre.functions.iter().filter(|f| !f.type_params.is_empty()).map(|f| f.id.0).collect();
         let mut fs = Vec::new();
-        validate::structural(&pre, &tp_names, &generic_ids, &declared_structs, &mut fs);
+        validate::structural(&pre, &tp_names, &generic_ids, &declared_structs, &toplevel_nested, &declared_before_opt, &mut fs);
         for f in &fs {
             let ix = idx_of(f.fn_id).map(|i| i as i64).unwrap_or(-1);
             println!("V\t{}\t{}\tpre\t{}\t{}\t{}\t{}", case, mode, ix, esc(&f.fn_name), f.kind, esc(&f.detail));
@@ -1820,8 +1880,8 @@ fn run_case(case: &str, code: &str, modes: &[&str], st: &mut Stats) {
         };
         let mut fs = Vec::new();
         generic_ids.extend(post.mono_instances.iter().map(|i| i.result.0));
-        validate::structural(&post, &tp_names, &generic_ids, &declared_structs, &mut fs);
-        validate::after_mono(&pre, &post, &tp_names, &mut fs);
+        validate::structural(&post, &tp_names, &generic_ids, &declared_structs, &toplevel_nested, &declared_before_opt, &mut fs);
+        validate::after_mono(&pre, &post, &tp_names, &uninferable, &mut fs);
         for f in &fs {
             // instances inherit the CFG of their generic original
             let src_id = post.mono_instances.iter().find(|i| i.result.0 == f.fn_id).map(|i| i.original.0).unwrap_or(f.fn_id);
